@@ -20,6 +20,11 @@ def run(tier, t0):
     for s in rep.stale:
         stale.setdefault(s["key"], set()).add(s["config"])
     rep.stale = sorted(k for k, v in stale.items() if len(v) == 2)
+    if tier == "thorough" and facts.REPO == "/repo":
+        from .. import ctir
+        ctir.run_ir(rep)
+        rep.floor("ir_wrappers", 200)
+        rep.floor("ir_functions_reached", 100)
     rep.floor("entry_points", 4000)
     rep.floor("abort_guard_branches_skipped", 20)
     return finish(rep, tier, t0,
